@@ -1119,6 +1119,68 @@ def gen_edit_case(rng, schema, base, boundary=None, plant_names=True):
     return case
 
 
+def gen_inmem_case(rng, schema):
+    """Nodes added to the loaded schema OBJECT (case["inmem"]): 2-4 new nodes (some with a value-taking child or
+    children), each below a parent drawn per top-level tree -- trees with and without extensionAllowed, the top node,
+    the first, a middle and the last subtree, leaves and inner nodes, standard and (merged partnered base) library
+    parents.  The ops are ordinary add ops, so the same edit is also made in the XML text for the expected listing."""
+    c = ctx_for(schema, "merged")
+    g = _Gen(rng, c, None, plant_names=False)
+    tops = g.root.find("schema").findall("node")
+    for _ in range(rng.choice([2, 3, 4])):
+        top = rng.choice(tops)
+        paths = []
+
+        def walk(n, p):
+            p = p + [_name(n)]
+            # in a partnered (merged) file a library node may only hang below a library node (below a standard tag it
+            # would have to be rooted: that dimension is covered by add_rooted)
+            ok_parent = (not c.partnered) or any(a[0] == "inLibrary" for a in _attrs(n))
+            if ok_parent and _name(n) != "#" and not any(_name(k) == "#" for k in n.findall("node")):
+                paths.append(p)
+            for k in n.findall("node"):
+                walk(k, p)
+        walk(top, [])
+        if not paths:
+            continue
+        subtrees = [p for p in paths if len(p) == 2]
+        r = rng.random()
+        if r < 0.15 or not subtrees:
+            path = paths[0]                                    # the top node itself
+        elif r < 0.75:
+            which = rng.choice(["first", "middle", "last"])
+            st = subtrees[0] if which == "first" else subtrees[-1] if which == "last" else subtrees[len(subtrees) // 2]
+            inner = [p for p in paths if p[:2] == st]
+            path = rng.choice(inner) if rng.random() < 0.5 else st
+        else:
+            path = rng.choice(paths)
+        spec = g.node_spec()
+        g.emit({"op": "add", "kind": "add_tag", "sec": "schema", "path": path, "elem": spec, "at": None})
+    if not g.ops:
+        g.op_add_tag()
+    return {"kind": "edit", "schema": schema, "base": "merged", "ops": [o for o in g.ops if o["kind"] == "add_tag"] or g.ops,
+            "files": rng.random() < 0.3, "inmem": True}
+
+
+def systematic_inmem_case(schema):
+    """One node below the first, a middle and the last subtree of EVERY top-level tree of a standard schema (trees
+    with and without extensionAllowed), added to the loaded schema object; every third one gets a value-taking child."""
+    c = ctx_for(schema, "merged")
+    ops = []
+    k = 0
+    for top in c.root.find("schema").findall("node"):
+        subs = [n for n in top.findall("node") if _name(n) != "#" and not any(_name(x) == "#" for x in n.findall("node"))]
+        if not subs:
+            continue
+        for pos, st in (("first", subs[0]), ("middle", subs[len(subs) // 2]), ("last", subs[-1])):
+            k += 1
+            spec = {"tag": "node", "name": f"Zz{k}-{pos}", "desc": f"added below the {pos} subtree", "attrs": [], "children": []}
+            if k % 3 == 0:
+                spec["children"].append({"tag": "node", "name": "#", "desc": "a value", "attrs": [["takesValue", []]], "children": []})
+            ops.append({"op": "add", "kind": "add_tag", "sec": "schema", "path": [_name(top), _name(st)], "elem": spec, "at": None})
+    return {"kind": "edit", "schema": schema, "base": "merged", "ops": ops, "files": False, "inmem": True}
+
+
 def gen_cases(rng, tier):
     """Deterministic (from rng) list of JSON-serialisable cases: bundled schemas, edits, malformed edits."""
     have = set(bundled())
@@ -1134,6 +1196,14 @@ def gen_cases(rng, tier):
         for _ in range(n):
             boundary = "any" if rng.random() < 0.16 else None
             cases.append(gen_edit_case(random.Random(rng.getrandbits(64)), schema, base, boundary))
+    # edits applied to the loaded schema object
+    for schema in (["HED8.3.0.xml", "HED8.0.0.xml"] if tier == "thorough" else ["HED8.3.0.xml"]):
+        if schema in have:
+            cases.append(systematic_inmem_case(schema))
+    for i in range(60 if tier == "thorough" else 8):
+        schema = ["HED8.3.0.xml", "HED8.3.0.xml", "HED_score_2.0.0.xml", "HED8.2.0.xml"][i % 4]
+        if schema in have:
+            cases.append(gen_inmem_case(random.Random(rng.getrandbits(64)), schema))
     n_mal = 40 if tier == "thorough" else 6
     for i in range(n_mal):
         schema, base = rng.choice([("HED8.3.0.xml", "merged"), ("HED_score_2.0.0.xml", "merged"),
@@ -1513,6 +1583,58 @@ def _check_lines(orig, m, d, failures, case):
         failures.append(_fail("lines-split-only-at-LF", "mediawiki", m, f"raised {type(e).__name__}: {str(e)[:200]}"))
 
 
+def _add_in_memory(schema, parent_path, spec):
+    """Add the node `spec` (and its children) below `parent_path` with the calls the schema readers use."""
+    from hed.schema.hed_schema_constants import HedSectionKey
+    long_name = "/".join(parent_path + [spec["name"]])
+    entry = schema._create_tag_entry(long_name, HedSectionKey.Tags)
+    if spec.get("desc"):
+        entry.description = spec["desc"].strip() or None          # what the XML reader delivers (4719ff8)
+    for a, vals in spec.get("attrs", []):
+        entry._set_attribute_value(a, ",".join(vals) if vals else True)
+    schema._add_tag_to_dict(long_name, entry, HedSectionKey.Tags)
+    for ch in spec.get("children", []) or []:
+        _add_in_memory(schema, parent_path + [spec["name"]], ch)
+
+
+def _schema_edited_in_memory(c, case):
+    from hed.schema import load_schema
+    s = load_schema(c.path)
+    for op in case["ops"]:
+        if op["op"] != "add" or op["sec"] != "schema":
+            raise ValueError("in-memory cases hold add ops on tags only")
+        _add_in_memory(s, list(op["path"]), op["elem"])
+    s.finalize_dictionaries()
+    return s
+
+
+def wiki_long_names(text):
+    """Independent reader of the tag section of a MERGED MediaWiki text: the long name of every node line, rebuilt
+    from the order and the level of the lines only."""
+    names, path, inside = [], [], False
+    for line in text.split("\n"):
+        line = line.strip()
+        if line.startswith("!# start schema"):
+            inside = True
+            continue
+        if line.startswith("!# end schema"):
+            break
+        if not inside or not line:
+            continue
+        if line.startswith("'''"):
+            nm = line[3:].split("'''")[0].strip()
+            path = [nm]
+        else:
+            lvl = len(line) - len(line.lstrip("*"))
+            rest = line[lvl:]
+            nm = rest.split("<nowiki>")[0].strip()
+            if not nm and "<nowiki>" in rest:
+                nm = rest.split("<nowiki>")[1].split(" ")[0].strip()      # '#' lines keep the name inside the wrapper
+            path = path[:lvl] + [nm]
+        names.append("/".join(path))
+    return names
+
+
 def _run_case(case, res, d):
     from hed.schema import load_schema, from_string
     schema = case["schema"]
@@ -1537,6 +1659,14 @@ def _run_case(case, res, d):
         text = ET.tostring(root, encoding="unicode")
         try:
             orig = from_string(text, ".xml")
+            if case.get("inmem"):
+                # the same edit applied to the loaded schema OBJECT; the two constructions must describe one schema
+                obj = _schema_edited_in_memory(c, case)
+                if obj != orig:
+                    res["outcome"] = "inmem_mismatch"
+                    res["stats"]["rejected_with"] = "object edit != text edit: " + _fmt_diff(schema_diff(orig, obj))
+                    return
+                orig = obj
         except Exception as e:  # noqa  -- the implementation refuses the edited schema: not a round-trip question
             res["outcome"] = "outside_class" if malformed else "edit_rejected"
             res["stats"]["rejected_with"] = f"{type(e).__name__}: {getattr(e, 'code', '')} {str(e)[:120]}"
@@ -1565,6 +1695,21 @@ def _run_case(case, res, d):
     if not malformed:
         for m in modes:
             _check_lines(orig, m, d, failures, case)
+        # clause wiki-independent-listing: the saved MERGED MediaWiki text, read by an independent line reader, lists
+        # every tag under the parent it has in the schema (position and level of the lines, not only their content)
+        try:
+            if not any("\n" in n for n in _edit_names(case)):
+                got = wiki_long_names(orig.get_as_mediawiki_string(True))
+                want = [e.name for e in orig.tags.all_entries]
+                if sorted(got) != sorted(want):
+                    miss = sorted(set(want) - set(got))[:3]
+                    extra = sorted(set(got) - set(want))[:3]
+                    fid = F7 if (not FIXED7 and _rooted_edit(case)) else None
+                    failures.append(_fail("wiki-independent-listing", "mediawiki", True,
+                                          f"tags not listed under their parent: missing {miss}, listed instead {extra}",
+                                          fid=fid, witness=_case_witness(case)))
+        except Exception as e:  # noqa
+            failures.append(_fail("wiki-independent-listing", "mediawiki", True, f"raised {type(e).__name__}: {str(e)[:200]}"))
     for m in modes:
         for fmt in fmts:
             r, xml_text, exc = None, None, None
